@@ -238,6 +238,10 @@ Proof. vm_compute. auto. Qed.
 Theorem C16_source_quote_rule : forall s, RootSrc.needsQuote s = GoSem.Ok (needs_quote s).
 Proof. exact Proofs.SrcRootP.needsQuote_src. Qed.
 
+(* the translation evaluates: the source's own answers on concrete inputs (vm_compute) *)
+Example C16_source_ex : RootSrc.needsQuote [97;98]%N = GoSem.Ok false /\ RootSrc.needsQuote [97;127]%N = GoSem.Ok true /\ RootSrc.needsQuote [97;195;169]%N = GoSem.Ok true /\ RootSrc.needsQuote [97;32]%N = GoSem.Ok true.
+Proof. vm_compute. repeat split. Qed.
+
 Print Assumptions C16_wanted_spec.
 Print Assumptions C16_fields_exactly_once.
 Print Assumptions C16_field_text.
